@@ -45,6 +45,7 @@ type VerifNodeDump struct {
 	WalLastAppended int64
 	WalLastSynced   int64
 	Wal             []wal.VerifEntry
+	SyncQueued      int // sync requests queued behind the sync round in progress
 
 	DbCommit int64
 	DbTerm   int64
@@ -65,6 +66,7 @@ func verifDumpStorage(d *VerifNodeDump, w wal.Wal, db kv.DB, keys []string) erro
 		if d.WalFirst, d.WalLastAppended, d.WalLastSynced, d.Wal, err = wal.VerifReadAll(w); err != nil {
 			return err
 		}
+		d.SyncQueued = wal.VerifSyncQueueLen(w)
 	}
 	if db != nil {
 		if d.DbCommit, err = db.ReadCommitOffset(); err != nil {
